@@ -89,6 +89,26 @@ def _case(repo, it, S, layout, sn):
     if k != "ok" or _seq_str(v) != want:
         out.append(("extract_sequence", f"{desc}.extract_sequence() -> {k}:{_seq_str(v) if k == 'ok' else v!r}; the base-by-base image is {want!r}", f_ext.qual))
         return n, out
+    # asked again on the same object (the sequence is memoised), and asked of the blocks of a multi-block location after the
+    # whole was extracted: same image
+    n += 1
+    k, v2 = run(it, f_ext, [], {}, loc)
+    if k != "ok" or _seq_str(v2) != want:
+        out.append(("extract_sequence repeated", f"{desc}.extract_sequence() a second time on the same object -> {k}:{_seq_str(v2) if k == 'ok' else v2!r}; "
+                    f"the first answer (the image) was {want!r}", f_ext.qual))
+    if cls == "CompoundInterval":
+        kb, blocks_v = run(it, it.method(loc, "blocks"), [], {}, loc)
+        for b in (blocks_v if kb == "ok" else []):
+            n += 1
+            (bs, be), = blocks_of(b)
+            if be == bs:
+                continue
+            k, bv = run(it, repo.fn(f"{LOC}:SingleInterval.extract_sequence"), [], {}, b)
+            wb = image([(bs, be)], sn)
+            if k != "ok" or _seq_str(bv) != wb:
+                out.append(("block sequence after whole extraction", f"{desc}: block [{bs},{be}) extracts {k}:{_seq_str(bv) if k == 'ok' else bv!r} "
+                            f"after the whole location was extracted; its image is {wb!r}", f"{LOC}:SingleInterval.extract_sequence"))
+                break
     # a location without direction has no 5'->3' reading: refused, never a silent plus-strand read
     if sn == "PLUS":
         n += 1
